@@ -45,19 +45,23 @@ Fixpoint import_lines (ls : list jline) (s : pstate) : option pstate :=
 (* raftStateManager.ExportState / ImportState (Clean; OfflineState on an in-memory store; importState; SnapshotSave).
    A failed import returns after the Clean: the previous data is in the backups, the live state is empty. *)
 Definition raft_export (ord : pstate -> list entry) (d : dir snapshot) : list jline := export ord (offline_state d []).
-Definition raft_import (keep : nat) (ord : pstate -> list entry) (ls : list jline) (d : dir snapshot) : dir snapshot * bool :=
+Inductive imp_res := ImpOk | ImpErr | ImpCrash.
+
+Definition raft_import (keep : nat) (ord : pstate -> list entry) (ls : list jline) (d : dir snapshot) : dir snapshot * imp_res :=
   let d1 := cleanup keep d in
   match import_lines ls (offline_state d1 []) with
-  | None => (d1, false)
-  | Some st => (snapshot_save keep (marshal ord st) d1, true)
+  | None => (d1, ImpErr)
+  | Some st => (snapshot_save keep (marshal ord st) d1, ImpOk)
   end.
 
 (* crdtStateManager.ImportState: crdt.Clean on the store, an offline batching state, importState, Commit.
-   Without the Commit nothing of the batch is written: a failed import leaves the cleaned (empty) store. *)
-Definition crdt_import (ls : list jline) (s : pstate) : pstate * bool :=
+   Without the Commit nothing of the batch is written: a failed import leaves the cleaned (empty) store.
+   As written, an empty stream reaches Commit with nothing batched, and go-ds-crdt v0.1.21 dereferences its nil
+   current delta there (publishDelta -> addDAGNode): the process dies after the Clean. *)
+Definition crdt_import (ls : list jline) (s : pstate) : pstate * imp_res :=
   match import_lines ls [] with
-  | None => ([], false)
-  | Some st => (st, true)
+  | None => ([], ImpErr)
+  | Some st => match ls with [] => ([], ImpCrash) | _ => (st, ImpOk) end
   end.
 
 (* two stores hold the same pinset *)
